@@ -127,9 +127,9 @@ PROPS = {
                            'C04_clamp_exact: the clamp lands exactly on the bound and yields no request without headroom. Tie: hist correspondence on resize calls (arguments) + monitor.',
                 level_note=LEVEL_NOTE),
     'C05': dict(level='proof', module='EscProofs.P.Rne',
-                streams=dict(quick=[('arith', ['-n', 40000, '-dir', '@ROOT/corpus/C05']), ('hist', ['-n', 300, '-scans', 10, '-focus', 'up'])],
-                             thorough=[('arith', ['-n', 3000000, '-dir', '@ROOT/corpus/C05']), ('hist', ['-n', 15000, '-scans', 12, '-focus', 'up'])],
-                             search=[('arith', ['-n', 300000, '-dir', '@ROOT/corpus/C05']), ('hist', ['-n', 1500, '-scans', 12, '-focus', 'up'])]),
+                streams=dict(quick=[('arith', ['-n', 40000, '-dir', '@ROOT/corpus/C05']), ('hist', ['-n', 300, '-scans', 10, '-focus', 'up']), ('hist', ['-n', 150, '-scans', 8, '-focus', 'rotate'])],
+                             thorough=[('arith', ['-n', 3000000, '-dir', '@ROOT/corpus/C05']), ('hist', ['-n', 15000, '-scans', 12, '-focus', 'up']), ('hist', ['-n', 5000, '-scans', 10, '-focus', 'rotate'])],
+                             search=[('arith', ['-n', 300000, '-dir', '@ROOT/corpus/C05']), ('hist', ['-n', 1500, '-scans', 12, '-focus', 'up']), ('hist', ['-n', 800, '-scans', 10, '-focus', 'rotate'])]),
                 aspects=['pct-kind', 'pct-bits', 'delta', 'delta-err', 'panic', 'hist:resize', 'hist:untaints'], monitors=['C05'],
                 theorems=['Esc.P.C05_exact_formula', 'Esc.P.C05_ceil_sufficient_minimal', 'Esc.P.C05_delta_is_max', 'Esc.P.C05_from_zero_exact',
                           'Esc.P.C05_from_zero_no_cache', 'Esc.P.C05_float_short_witness',
@@ -141,7 +141,10 @@ PROPS = {
                            'exactly 1 without cache; composition untainted + requested = delta unless clamped (C07_remainder). Float layer: the model executes binary64 round-to-nearest-even on rationals (rne64) and is compared bit for bit (Float64bits) with Go on every case; '
                            'the statement "float result >= exact need" is false at extreme magnitudes (C05_float_short_witness, finding T2). Proved instead: for every rounding function obeying the standard model with unit round-off u (relative error <= u per operation, integers up to 2^53 exact) the value that is ceiled differs from the exact one by at most (n/T)(8uP+4uT) = 8u*N + 4u*n (C05_float_error; from zero: 4u*N, C05_from_zero_float_error), so the requested count is within one node of the exact minimal count whenever that budget is below 1 (C05_float_within_one, C05_from_zero_within_one); rne64, the function the driver executes and Go is compared with bit for bit, obeys the standard model with u = 2^-53 (StdModel_rne64, C05_rne64_within_one). Sufficiency of the float result: the exact value exceeds every integer below it by at least 1/(s*T), so whenever the budget is below that granularity - with u = 2^-53: (8N+4n)*s*T < 2^53 - the float pipeline never asks for fewer than the exact minimal count (C05_float_sufficient), and n + delta lies in [N, N+1], N = ceil(100R/(sT)) (C05_float_full_in_region; C05_rne64_full_in_region for the executed model). Outside that region the property is false (T2) and the exact-rational monitor decides each observed delta. From zero: within one node (C05_from_zero_within_one); sufficiency from zero is monitored, not proved.',
                 level_note=LEVEL_NOTE + ' Go float64 arithmetic = IEEE-754 binary64 RNE (checked bit-for-bit against the model on every run, not proved).'),
-    'C06': dict(level='proof', module='EscProofs.P.C06Starve', streams=hist('C06', focus='bands'),
+    'C06': dict(level='proof', module='EscProofs.P.C06Starve',
+                streams=dict(quick=[('scenario', ['-dir', '@ROOT/corpus/C06']), ('hist', ['-n', 400, '-scans', 10, '-focus', 'bands']), ('hist', ['-n', 150, '-scans', 8, '-focus', 'rotate'])],
+                             thorough=[('scenario', ['-dir', '@ROOT/corpus/C06']), ('hist', ['-n', 20000, '-scans', 12, '-focus', 'bands']), ('hist', ['-n', 5000, '-scans', 10, '-focus', 'rotate'])],
+                             search=[('hist', ['-n', 1500, '-scans', 12, '-focus', 'bands']), ('hist', ['-n', 800, '-scans', 10, '-focus', 'rotate'])]),
                 aspects=['hist:taintadds', 'hist:untaints', 'hist:resize', 'hist:delta'], monitors=['C06'],
                 theorems=['Esc.P.C06_bands', 'Esc.P.C06_triggers', 'Esc.P.C06_triggers_off', 'Esc.P.C06_taint_rate', 'Esc.P.C06_idle_band',
                           'Esc.P.C06_up_never_taints', 'Esc.P.C06_down_never_adds', 'Esc.P.taintLoop_count_all_ok',
@@ -249,10 +252,10 @@ PROPS = {
                            'Tie: hist with 2-3 groups incl. `default`, nodes registered in another group\'s ASG; per-group journals compared; targets monitored on observed journals. Evaluation only from own pods/nodes: C14_view.',
                 level_note=LEVEL_NOTE, assumptions=['node-group names are distinct and distinct groups use distinct cloud groups (documented configuration requirement)']),
     'C13': dict(level='proof', module='EscProofs.P.C13',
-                streams=dict(quick=[('resources', ['-n', 3000]), ('arith', ['-n', 20000])],
-                             thorough=[('resources', ['-n', 200000]), ('arith', ['-n', 1000000])],
-                             search=[('resources', ['-n', 30000]), ('arith', ['-n', 100000])]),
-                aspects=['podTotal', 'lpMem', 'lpCPU', 'capTotal', 'laMem', 'laCPU', 'remaining', 'perm-invariance', 'pct-kind', 'pct-bits', 'panic'],
+                streams=dict(quick=[('resources', ['-n', 3000]), ('arith', ['-n', 20000]), ('hist', ['-n', 200, '-scans', 10, '-focus', 'dry']), ('hist', ['-n', 150, '-scans', 10, '-focus', 'bands'])],
+                             thorough=[('resources', ['-n', 200000]), ('arith', ['-n', 1000000]), ('hist', ['-n', 8000, '-scans', 12, '-focus', 'dry']), ('hist', ['-n', 8000, '-scans', 12, '-focus', 'bands'])],
+                             search=[('resources', ['-n', 30000]), ('arith', ['-n', 100000]), ('hist', ['-n', 1000, '-scans', 12, '-focus', 'dry']), ('hist', ['-n', 1000, '-scans', 12, '-focus', 'bands'])]),
+                aspects=['podTotal', 'lpMem', 'lpCPU', 'capTotal', 'laMem', 'laCPU', 'remaining', 'perm-invariance', 'pct-kind', 'pct-bits', 'panic', 'hist:delta'],
                 monitors=['C13'],
                 decisive={'podTotal': 'Esc.P.C13_totals: the model total is the sum over pods of max(sum containers, largest init) + overhead',
                           'capTotal': 'Esc.P.C13_capacity: the model capacity is the sum of allocatable over the given nodes'},
